@@ -8,7 +8,7 @@ PROP = Prop(
     level='other',
     replay=script_replay('replay/omen.py', default_fn='ENUM'),
     bounded=[Bounded('C10.bounded.enum', 'replay/omen.py', args=['--fn', 'ENUM'],
-                     bound='40 random OMEN models quick / 300 thorough (n-gram 2-3, alphabets of 2-3 letters, lengths up to 5, sparse or dense, dead-end prefixes, '
+                     bound='250 random OMEN models quick / 1500 thorough (n-gram 2-3, alphabets of 2-3 letters, lengths up to 5, sparse or dense, dead-end prefixes, '
                            'levels 0..10 assigned at random), every level 0..24 in a shuffled order with repeats, one optimizer shared across the whole history',
                      clause='exactness: the multiset of strings emitted at level L equals the independent brute-force enumeration of the strings whose costs sum to L, '
                             'then None; independent of cache contents and of the order in which levels were generated'),
